@@ -182,56 +182,6 @@ Proof.
   assert (d < 128) by (subst d; apply N.div_lt_upper_bound; lia). lia.
 Qed.
 
-(* ---- encode_integer ----------------------------------------------------------------------- *)
-Lemma encode_integer_spec r : (0 <= r)%Z ->
-  (length (der_content (Z.to_N r)) < 256)%nat ->
-  encode_integer r =
-    Ret (x02 :: n2b (N.of_nat (length (der_content (Z.to_N r)))) :: der_content (Z.to_N r)).
-Proof.
-  intros Hr Hlen. unfold encode_integer, der_content in *.
-  destruct (r <? 0)%Z eqn:E; [lia|].
-  destruct (head_n (hexbytes (Z.to_N r)) <=? 127) eqn:Eh; unfold byte_of_len.
-  - destruct (N.of_nat (length (hexbytes (Z.to_N r))) <? 256) eqn:El; [reflexivity|lia].
-  - cbn [length] in *.
-    destruct (N.of_nat (length (hexbytes (Z.to_N r))) + 1 <? 256) eqn:El; [|lia].
-    cbn [bind]. rewrite Nat2N.inj_succ, <- N.add_1_r. reflexivity.
-Qed.
-
-Lemma starts_with_same b s : starts_with b (b :: s) = true.
-Proof. cbn [starts_with]. apply byte_eqb_refl. Qed.
-
-(* ---- remove_integer inverts the integer layout -------------------------------------------- *)
-Lemma remove_integer_layout (c rest : bytes) (broken : bool) b0 tl :
-  c = b0 :: tl -> b2n b0 <= 127 -> (length c <= 127)%nat ->
-  remove_integer (x02 :: n2b (N.of_nat (length c)) :: c ++ rest) broken
-  = Ret (Z.of_N (be_decode c), rest).
-Proof.
-  intros Ec Hb Hl. unfold remove_integer. rewrite starts_with_same. cbn [negb drop skipn].
-  destruct (n_small (N.of_nat (length c)) ltac:(lia)) as [A B].
-  cbn [read_length]. rewrite A. cbn [N.eqb bind]. rewrite B.
-  cbn [length]. rewrite app_length.
-  destruct (N.of_nat (S (S (length c + length rest))) <? N.of_nat (1 + 1) + N.of_nat (length c)) eqn:E; [lia|].
-  rewrite Nat2N.id. cbn [Nat.add drop skipn].
-  change (skipn (length c) (c ++ rest)) with (drop (length c) (c ++ rest)).
-  unfold take, drop. rewrite firstn_app_exact, skipn_app_exact.
-  rewrite Ec at 1.
-  destruct (128 <=? b2n b0) eqn:E2; [lia|]. cbn [andb]. reflexivity.
-Qed.
-
-Lemma remove_integer_encode r rest broken e :
-  (0 <= r < 2 ^ 1015)%Z -> encode_integer r = Ret e ->
-  remove_integer (e ++ rest) broken = Ret (r, rest).
-Proof.
-  intros Hr He.
-  assert (Hl : (length (der_content (Z.to_N r)) <= 127)%nat).
-  { apply (der_content_length_bound _ 126).
-    change (128 * 256 ^ N.of_nat 126) with (Z.to_N (2 ^ 1015)). lia. }
-  rewrite encode_integer_spec in He by lia. injection He as <-.
-  destruct (der_content_head (Z.to_N r)) as (b0 & tl & Ec & Hb).
-  cbn [app]. rewrite (remove_integer_layout _ rest broken b0 tl Ec Hb Hl).
-  rewrite der_content_decode. f_equal. f_equal. lia.
-Qed.
-
 (* ---- lengths ------------------------------------------------------------------------------ *)
 Lemma read_length_encode_length t rest :
   (nbytes t < 128)%nat ->
@@ -255,6 +205,90 @@ Proof.
     unfold take. rewrite <- Ek.
     replace (nbytes t) with (length (hexbytes t)) at 1 by (rewrite hexbytes_length, Ez; reflexivity).
     rewrite firstn_app_exact, hexbytes_decode. cbn [length]. rewrite hexbytes_length, Ez. reflexivity.
+Qed.
+
+
+(* the octets encode_length writes are read back by read_length, whatever follows; at most 128 of them *)
+Lemma encode_length_read t : (nbytes t < 128)%nat ->
+  exists e, encode_length (Z.of_N t) = Ret e /\ (1 <= length e <= 128)%nat /\
+    forall rest, read_length (e ++ rest) = Ret (t, length e).
+Proof.
+  intros Hn. destruct (read_length_encode_length t [] Hn) as (e & Ee & Hr0).
+  exists e. split; [exact Ee|]. split.
+  - unfold encode_length in Ee.
+    destruct (Z.of_N t <? 0)%Z; [discriminate|]. destruct (Z.of_N t <? 128)%Z.
+    + injection Ee as <-. cbn [length]. lia.
+    + rewrite N2Z.id in Ee. unfold byte_of_len in Ee.
+      destruct (N.lor 128 (N.of_nat (length (hexbytes t))) <? 256); [|discriminate].
+      cbn [bind] in Ee. injection Ee as <-. cbn [length]. rewrite hexbytes_length.
+      destruct (t =? 0); lia.
+  - intros rest. destruct (read_length_encode_length t rest Hn) as (e' & Ee' & Hr).
+    rewrite Ee in Ee'. injection Ee' as <-. exact Hr.
+Qed.
+
+Lemma encode_length_short n : (n < 128)%nat -> encode_length (Z.of_nat n) = Ret [n2b (N.of_nat n)].
+Proof.
+  intros H. unfold encode_length.
+  destruct (Z.of_nat n <? 0)%Z eqn:E0; [lia|]. destruct (Z.of_nat n <? 128)%Z eqn:E1; [|lia].
+  rewrite <- nat_N_Z, N2Z.id. reflexivity.
+Qed.
+
+
+(* ---- encode_integer ----------------------------------------------------------------------- *)
+Lemma encode_integer_spec r : (0 <= r)%Z ->
+  (nbytes (N.of_nat (length (der_content (Z.to_N r)))) < 128)%nat ->
+  exists el, encode_length (Z.of_nat (length (der_content (Z.to_N r)))) = Ret el /\
+    (1 <= length el <= 128)%nat /\
+    (forall rest, read_length (el ++ rest) = Ret (N.of_nat (length (der_content (Z.to_N r))), length el)) /\
+    encode_integer r = Ret (x02 :: el ++ der_content (Z.to_N r)).
+Proof.
+  intros Hr Hlen.
+  destruct (encode_length_read _ Hlen) as (el & Eel & Hll & Hrd). rewrite nat_N_Z in Eel.
+  exists el. repeat split; try assumption; try lia.
+  unfold encode_integer, der_content in *.
+  destruct (r <? 0)%Z eqn:E; [lia|].
+  destruct (head_n (hexbytes (Z.to_N r)) <=? 127) eqn:Eh.
+  - rewrite Eel. reflexivity.
+  - cbn [length] in Eel. rewrite Nat2Z.inj_succ, <- Z.add_1_r in Eel. rewrite Eel. reflexivity.
+Qed.
+
+Lemma starts_with_same b s : starts_with b (b :: s) = true.
+Proof. cbn [starts_with]. apply byte_eqb_refl. Qed.
+
+(* ---- remove_integer inverts the integer layout -------------------------------------------- *)
+Lemma remove_integer_layout (el c rest : bytes) (broken : bool) b0 tl :
+  c = b0 :: tl -> b2n b0 <= 127 ->
+  (forall X, read_length (el ++ X) = Ret (N.of_nat (length c), length el)) ->
+  remove_integer (x02 :: el ++ c ++ rest) broken = Ret (Z.of_N (be_decode c), rest).
+Proof.
+  intros Ec Hb Hrd. unfold remove_integer. rewrite starts_with_same. cbn [negb drop skipn].
+  rewrite Hrd. cbn [bind].
+  cbn [length]. rewrite !app_length.
+  destruct (N.of_nat (S (length el + (length c + length rest))) <? N.of_nat (1 + length el) + N.of_nat (length c)) eqn:E; [lia|].
+  rewrite Nat2N.id. cbn [Nat.add drop skipn].
+  assert (D1 : skipn (length el) (el ++ c ++ rest) = c ++ rest) by apply skipn_app_exact.
+  rewrite D1.
+  assert (D2 : skipn (length el + length c) (el ++ c ++ rest) = rest).
+  { rewrite <- app_length, app_assoc. apply skipn_app_exact. }
+  rewrite D2. unfold take. rewrite firstn_app_exact.
+  rewrite Ec at 1.
+  destruct (128 <=? b2n b0) eqn:E2; [lia|]. cbn [andb]. reflexivity.
+Qed.
+
+(* DER can express the length: fewer than 256^127 content bytes *)
+Definition int_expressible (r : Z) : Prop :=
+  (nbytes (N.of_nat (length (der_content (Z.to_N r)))) < 128)%nat.
+
+Lemma remove_integer_encode r rest broken e :
+  (0 <= r)%Z -> int_expressible r -> encode_integer r = Ret e ->
+  remove_integer (e ++ rest) broken = Ret (r, rest).
+Proof.
+  intros Hr Hx He. destruct (encode_integer_spec r Hr Hx) as (el & _ & _ & Hrd & Ee).
+  rewrite Ee in He. injection He as <-.
+  destruct (der_content_head (Z.to_N r)) as (b0 & tl & Ec & Hb).
+  cbn [app]. rewrite <- app_assoc.
+  rewrite (remove_integer_layout el _ rest broken b0 tl Ec Hb Hrd).
+  rewrite der_content_decode. f_equal. f_equal. lia.
 Qed.
 
 (* ---- slicing with unbounded ends ---------------------------------------------------------- *)
@@ -291,72 +325,76 @@ Proof.
 Qed.
 
 (* ---- sigencode_der / sigdecode_der -------------------------------------------------------- *)
-Lemma encode_integer_length r e : (0 <= r < 2 ^ 1015)%Z -> encode_integer r = Ret e ->
-  (3 <= length e <= 129)%nat.
+(* the hypothesis of the round trip: the whole signature body is shorter than 256^127 bytes, the
+   largest length a DER long form (at most 127 length octets) can announce *)
+Definition der_expressible (r s : Z) : Prop :=
+  N.of_nat (nbytes (Z.to_N r)) + N.of_nat (nbytes (Z.to_N s)) + 264 <= 256 ^ 127.
+
+Lemma der_content_len_le v : (length (der_content v) <= nbytes v + 1)%nat.
 Proof.
-  intros Hr He.
-  assert (Hl : (length (der_content (Z.to_N r)) <= 127)%nat).
-  { apply (der_content_length_bound _ 126).
-    change (128 * 256 ^ N.of_nat 126) with (Z.to_N (2 ^ 1015)). lia. }
-  rewrite encode_integer_spec in He by lia. injection He as <-.
-  pose proof (der_content_length (Z.to_N r)). cbn [length]. lia.
+  pose proof (der_content_length v) as H. rewrite hexbytes_length in H.
+  destruct (v =? 0) eqn:E.
+  - assert (v = 0) by lia. subst v. cbn. lia.
+  - lia.
 Qed.
 
-Lemma encode_integer_total r : (0 <= r < 2 ^ 1015)%Z -> exists e, encode_integer r = Ret e.
+Lemma nbytes_lt_128 t : t < 256 ^ 127 -> (nbytes t < 128)%nat.
+Proof. intros H. assert (nbytes t <= 127)%nat; [|lia]. apply nbytes_le. exact H. Qed.
+
+Lemma der_expressible_ints r s : der_expressible r s -> int_expressible r /\ int_expressible s.
 Proof.
-  intros Hr.
-  assert (Hl : (length (der_content (Z.to_N r)) <= 127)%nat).
-  { apply (der_content_length_bound _ 126).
-    change (128 * 256 ^ N.of_nat 126) with (Z.to_N (2 ^ 1015)). lia. }
-  eexists. apply encode_integer_spec; lia.
+  unfold der_expressible, int_expressible. intros H.
+  pose proof (der_content_len_le (Z.to_N r)). pose proof (der_content_len_le (Z.to_N s)).
+  split; apply nbytes_lt_128; lia.
 Qed.
 
 (* the layout of a signature: 30 ‖ len ‖ int(r) ‖ int(s) *)
 Lemma sigencode_layout r s :
-  (0 <= r < 2 ^ 1015)%Z -> (0 <= s < 2 ^ 1015)%Z ->
+  (0 <= r)%Z -> (0 <= s)%Z -> der_expressible r s ->
   exists er es el, encode_integer r = Ret er /\ encode_integer s = Ret es /\
     encode_length (Z.of_nat (length (er ++ es))) = Ret el /\
     sigencode_der r s = Ret (x30 :: el ++ er ++ es) /\
     forall rest, read_length (el ++ rest) = Ret (N.of_nat (length (er ++ es)), length el).
 Proof.
-  intros Hr Hs.
-  destruct (encode_integer_total r Hr) as [er Er], (encode_integer_total s Hs) as [es Es].
-  pose proof (encode_integer_length r er Hr Er). pose proof (encode_integer_length s es Hs Es).
+  intros Hr Hs Hx. destruct (der_expressible_ints r s Hx) as [Hxr Hxs].
+  destruct (encode_integer_spec r Hr Hxr) as (lr & _ & Hlr & _ & Er).
+  destruct (encode_integer_spec s Hs Hxs) as (ls & _ & Hls & _ & Es).
+  set (er := x02 :: lr ++ der_content (Z.to_N r)) in *.
+  set (es := x02 :: ls ++ der_content (Z.to_N s)) in *.
   set (t := N.of_nat (length (er ++ es))).
   assert (Hn : (nbytes t < 128)%nat).
-  { assert (nbytes t <= 2)%nat; [|lia]. apply nbytes_le. unfold t. rewrite app_length.
-    change (256 ^ N.of_nat 2) with 65536. lia. }
-  destruct (read_length_encode_length t [] Hn) as (el & Eel & _).
+  { apply nbytes_lt_128. unfold t, er, es. rewrite app_length. cbn [length]. rewrite !app_length.
+    pose proof (der_content_len_le (Z.to_N r)). pose proof (der_content_len_le (Z.to_N s)).
+    unfold der_expressible in Hx. lia. }
+  destruct (encode_length_read t Hn) as (el & Eel & _ & Hrd).
   exists er, es, el. repeat split; try assumption.
-  - rewrite <- Eel. f_equal. unfold t. lia.
-  - unfold sigencode_der. rewrite Er, Es. cbn [bind]. unfold encode_sequence.
-    cbn [fold_right concat]. rewrite app_nil_r.
-    replace (N.of_nat (length er) + (N.of_nat (length es) + 0)) with t
-      by (unfold t; rewrite app_length; lia).
-    rewrite Eel. reflexivity.
-  - intros rest. destruct (read_length_encode_length t rest Hn) as (el' & Eel' & Hrd).
-    rewrite Eel in Eel'. injection Eel' as <-. exact Hrd.
+  unfold sigencode_der. rewrite Er, Es. cbn [bind]. unfold encode_sequence.
+  cbn [fold_right concat]. rewrite app_nil_r.
+  replace (N.of_nat (length er) + (N.of_nat (length es) + 0)) with t
+    by (unfold t; rewrite app_length; lia).
+  rewrite Eel. reflexivity.
 Qed.
 
 Lemma der_roundtrip r s broken :
-  (0 <= r < 2 ^ 1015)%Z -> (0 <= s < 2 ^ 1015)%Z ->
+  (0 <= r)%Z -> (0 <= s)%Z -> der_expressible r s ->
   exists sig, sigencode_der r s = Ret sig /\ sigdecode_der sig broken = Ret (r, s).
 Proof.
-  intros Hr Hs. destruct (sigencode_layout r s Hr Hs) as (er & es & el & Er & Es & _ & Esig & Hrd).
+  intros Hr Hs Hx. destruct (der_expressible_ints r s Hx) as [Hxr Hxs].
+  destruct (sigencode_layout r s Hr Hs Hx) as (er & es & el & Er & Es & _ & Esig & Hrd).
   eexists; split; [exact Esig|]. unfold sigdecode_der.
   replace (x30 :: el ++ er ++ es) with (x30 :: el ++ (er ++ es) ++ []) by (rewrite app_nil_r; reflexivity).
   rewrite (remove_sequence_layout el (er ++ es) [] _ eq_refl (Hrd _)).
   cbn [bind nonempty andb].
-  rewrite (remove_integer_encode r es broken er Hr Er). cbn [bind].
+  rewrite (remove_integer_encode r es broken er Hr Hxr Er). cbn [bind].
   rewrite <- (app_nil_r es).
-  rewrite (remove_integer_encode s [] broken es Hs Es). cbn [bind nonempty andb]. reflexivity.
+  rewrite (remove_integer_encode s [] broken es Hs Hxs Es). cbn [bind nonempty andb]. reflexivity.
 Qed.
 
 Lemma der_trailing_after_encoding r s t :
-  (0 <= r < 2 ^ 1015)%Z -> (0 <= s < 2 ^ 1015)%Z -> t <> [] ->
+  (0 <= r)%Z -> (0 <= s)%Z -> der_expressible r s -> t <> [] ->
   exists sig, sigencode_der r s = Ret sig /\ sigdecode_der (sig ++ t) false = Raise E_DER.
 Proof.
-  intros Hr Hs Ht. destruct (sigencode_layout r s Hr Hs) as (er & es & el & Er & Es & _ & Esig & Hrd).
+  intros Hr Hs Hx Ht. destruct (sigencode_layout r s Hr Hs Hx) as (er & es & el & Er & Es & _ & Esig & Hrd).
   eexists; split; [exact Esig|]. unfold sigdecode_der.
   replace ((x30 :: el ++ er ++ es) ++ t) with (x30 :: el ++ (er ++ es) ++ t)
     by (cbn [app]; rewrite <- !app_assoc; reflexivity).
@@ -364,15 +402,21 @@ Proof.
   cbn [bind]. destruct t; [congruence|reflexivity].
 Qed.
 
-(* ---- the statement for ALL r, s >= 0 is false in the model: content of 128 bytes ------------ *)
-Lemma der_roundtrip_fails_at_2_1015 :
-  exists sig, sigencode_der (2 ^ 1015) 1 = Ret sig /\ sigdecode_der sig true = Raise E_VALUE
-              /\ sigdecode_der sig false = Raise E_VALUE.
-Proof. eexists. split; [vm_compute; reflexivity|]. split; vm_compute; reflexivity. Qed.
-
-(* and from 256 content bytes on the encoder itself raises *)
-Lemma der_encode_fails_at_2_2040 : sigencode_der (2 ^ 2040) 1 = Raise E_VALUE.
-Proof. vm_compute. reflexivity. Qed.
+(* every integer that fits in an addressable memory (fewer than 2^64 bytes) is expressible *)
+Lemma der_expressible_addressable r s :
+  (0 <= r)%Z -> (0 <= s)%Z -> (Z.log2 r < 2 ^ 67)%Z -> (Z.log2 s < 2 ^ 67)%Z -> der_expressible r s.
+Proof.
+  intros Hr Hs Lr Ls. unfold der_expressible.
+  assert (B : forall v, (0 <= v)%Z -> (Z.log2 v < 2 ^ 67)%Z -> N.of_nat (nbytes (Z.to_N v)) <= 2 ^ 64).
+  { intros v Hv Lv. destruct (Z.to_N v) as [|q] eqn:E; [cbn; lia|]. cbn [nbytes]. rewrite <- E.
+    rewrite Nat2N.inj_succ, N2Nat.id.
+    assert (N.log2 (Z.to_N v) = Z.to_N (Z.log2 v)) as ->.
+    { clear. destruct v as [|[w|w|]|w]; reflexivity. }
+    assert (Z.to_N (Z.log2 v) < 2 ^ 67) by (pose proof (Z.log2_nonneg v); lia).
+    assert (Z.to_N (Z.log2 v) / 8 < 2 ^ 64) by (apply N.div_lt_upper_bound; lia). lia. }
+  pose proof (B r Hr Lr). pose proof (B s Hs Ls).
+  assert (2 ^ 64 + 2 ^ 64 + 264 <= 256 ^ 127) by (apply N.leb_le; vm_compute; reflexivity). lia.
+Qed.
 
 (* ---- strict decoding is prefix-free: NO accepted blob stays accepted with bytes appended ------ *)
 Lemma read_length_app s t v : read_length s = Ret v -> read_length (s ++ t) = Ret v.
@@ -549,20 +593,33 @@ Proof.
   end.
 Qed.
 
-Lemma encode_length_short n : (n < 128)%nat -> encode_length (Z.of_nat n) = Ret [n2b (N.of_nat n)].
+Lemma encode_integer_short r : (0 <= r)%Z -> (length (der_content (Z.to_N r)) < 128)%nat ->
+  encode_integer r =
+    Ret (x02 :: n2b (N.of_nat (length (der_content (Z.to_N r)))) :: der_content (Z.to_N r)).
 Proof.
-  intros H. unfold encode_length.
-  destruct (Z.of_nat n <? 0)%Z eqn:E0; [lia|]. destruct (Z.of_nat n <? 128)%Z eqn:E1; [|lia].
-  rewrite <- nat_N_Z, N2Z.id. reflexivity.
+  intros Hr Hl.
+  assert (Hx : (nbytes (N.of_nat (length (der_content (Z.to_N r)))) < 128)%nat).
+  { assert (nbytes (N.of_nat (length (der_content (Z.to_N r)))) <= 1)%nat; [|lia].
+    apply nbytes_le. change (256 ^ N.of_nat 1) with 256. lia. }
+  destruct (encode_integer_spec r Hr Hx) as (el & Eel & _ & _ & Ee).
+  rewrite encode_length_short in Eel by assumption. injection Eel as <-. exact Ee.
+Qed.
+
+Lemma small_expressible r s : (0 <= r < 2 ^ 256)%Z -> (0 <= s < 2 ^ 256)%Z -> der_expressible r s.
+Proof.
+  intros Hr Hs.
+  assert (B : forall v, (0 <= v < 2 ^ 256)%Z -> (Z.log2 v < 2 ^ 67)%Z).
+  { intros v Hv. destruct (Z.eq_dec v 0) as [->|]; [reflexivity|].
+    assert (Z.log2 v < 256)%Z by (apply Z.log2_lt_pow2; lia). lia. }
+  apply der_expressible_addressable; try lia; apply B; assumption.
 Qed.
 
 Lemma der_bip66 r s ht : (1 <= r < 2 ^ 256)%Z -> (1 <= s < 2 ^ 256)%Z ->
   exists sig, sigencode_der r s = Ret sig /\ bip66_valid (sig ++ [ht]) = true.
 Proof.
   intros Hr Hs.
-  assert (Hr' : (0 <= r < 2 ^ 1015)%Z) by (split; [lia|]; eapply Z.lt_trans; [apply Hr|reflexivity]).
-  assert (Hs' : (0 <= s < 2 ^ 1015)%Z) by (split; [lia|]; eapply Z.lt_trans; [apply Hs|reflexivity]).
-  destruct (sigencode_layout r s Hr' Hs') as (er & es & el & Er & Es & Eel & Esig & _).
+  assert (Hx : der_expressible r s) by (apply small_expressible; lia).
+  destruct (sigencode_layout r s ltac:(lia) ltac:(lia) Hx) as (er & es & el & Er & Es & Eel & Esig & _).
   assert (Hlr : (length (der_content (Z.to_N r)) <= 33)%nat).
   { apply (der_content_length_bound _ 32).
     assert (Z.to_N r < Z.to_N (2 ^ 256)) by lia.
@@ -573,7 +630,7 @@ Proof.
     assert (Z.to_N s < Z.to_N (2 ^ 256)) by lia.
     change (Z.to_N (2 ^ 256)) with (256 ^ N.of_nat 32) in H.
     pose proof (pow256_pos (N.of_nat 32)). lia. }
-  rewrite encode_integer_spec in Er by lia. rewrite encode_integer_spec in Es by lia.
+  rewrite encode_integer_short in Er by lia. rewrite encode_integer_short in Es by lia.
   injection Er as <-. injection Es as <-.
   destruct (der_content_shape (Z.to_N r) ltac:(lia)) as (r0 & rt & Ecr & Hr0 & Hr1).
   destruct (der_content_shape (Z.to_N s) ltac:(lia)) as (s0 & st & Ecs & Hs0 & Hs1).
@@ -586,27 +643,10 @@ Proof.
 Qed.
 
 (* ---- statements as they appear in Props/C10.v ---------------------------------------------------- *)
-Definition der_statement : Prop :=
-  forall (r s : Z) (broken : bool), (0 <= r)%Z -> (0 <= s)%Z ->
+Lemma der_roundtrip_addressable (r s : Z) (broken : bool) :
+  (0 <= r)%Z -> (0 <= s)%Z -> (Z.log2 r < 2 ^ 67)%Z -> (Z.log2 s < 2 ^ 67)%Z ->
   exists sig, sigencode_der r s = Ret sig /\ sigdecode_der sig broken = Ret (r, s).
-
-(* exclusion predicate of finding der-integer-length-128: an integer whose DER content needs 128
-   bytes or more (2^1015 and up) *)
-Definition der_oversize (r s : Z) : Prop := (2 ^ 1015 <= r)%Z \/ (2 ^ 1015 <= s)%Z.
-
-Lemma der_statement_refuted : ~ der_statement.
-Proof.
-  intros H. destruct (H (2 ^ 1015)%Z 1%Z true) as (sig & E1 & E2); [apply Z.leb_le; reflexivity|lia|].
-  destruct der_roundtrip_fails_at_2_1015 as (sig' & E1' & E2' & _).
-  rewrite E1 in E1'. injection E1' as <-. rewrite E2 in E2'. discriminate.
-Qed.
-
-Lemma der_roundtrip_partial (r s : Z) (broken : bool) :
-  (0 <= r)%Z -> (0 <= s)%Z -> ~ der_oversize r s ->
-  exists sig, sigencode_der r s = Ret sig /\ sigdecode_der sig broken = Ret (r, s).
-Proof.
-  intros Hr Hs Hex. unfold der_oversize in Hex. apply der_roundtrip; lia.
-Qed.
+Proof. intros. apply der_roundtrip; try assumption. apply der_expressible_addressable; assumption. Qed.
 
 Lemma der_of_lows (n r s : Z) (ht : byte) :
   (n < 2 ^ 256)%Z -> (1 <= r < n)%Z -> (1 <= s <= n / 2)%Z ->
@@ -617,19 +657,20 @@ Proof.
   assert (Hs2 : (s < 2 ^ 256)%Z).
   { assert (n / 2 <= n)%Z by (apply Z.div_le_upper_bound; lia). lia. }
   destruct (der_bip66 r s ht) as (sig & E1 & E2); [lia|lia|].
-  assert (H1015 : (2 ^ 256 < 2 ^ 1015)%Z) by reflexivity.
-  destruct (der_roundtrip r s false) as (sig' & E1' & E3); [lia|lia|].
+  destruct (der_roundtrip r s false) as (sig' & E1' & E3); [lia|lia|apply small_expressible; lia|].
   rewrite E1 in E1'. injection E1' as <-.
   exists sig. repeat split; try assumption; lia.
 Qed.
 
 Lemma der_long_form_example :
-  (0 <= 2 ^ 1015 - 1)%Z /\ (0 <= 2 ^ 1000)%Z /\ ~ der_oversize (2 ^ 1015 - 1) (2 ^ 1000) /\
-  (exists sig, sigencode_der (2 ^ 1015 - 1) (2 ^ 1000) = Ret sig /\ (255 < length sig)%nat).
+  (0 <= 2 ^ 2040 - 1)%Z /\ (0 <= 2 ^ 1015)%Z /\ (Z.log2 (2 ^ 2040 - 1) < 2 ^ 67)%Z /\ (Z.log2 (2 ^ 1015) < 2 ^ 67)%Z /\
+  (exists sig, sigencode_der (2 ^ 2040 - 1) (2 ^ 1015) = Ret sig /\ (384 < length sig)%nat /\
+     sigdecode_der sig false = Ret ((2 ^ 2040 - 1)%Z, (2 ^ 1015)%Z)).
 Proof.
-  split; [apply Z.leb_le; reflexivity|]. split; [apply Z.leb_le; reflexivity|]. split.
-  - unfold der_oversize. intros [H|H]; apply Z.leb_le in H; revert H; vm_compute; discriminate.
-  - eexists. split; [vm_compute; reflexivity|]. apply Nat.ltb_lt. vm_compute. reflexivity.
+  split; [apply Z.leb_le; reflexivity|]. split; [apply Z.leb_le; reflexivity|].
+  split; [apply Z.ltb_lt; vm_compute; reflexivity|]. split; [apply Z.ltb_lt; vm_compute; reflexivity|].
+  eexists. split; [vm_compute; reflexivity|]. split; [apply Nat.ltb_lt; vm_compute; reflexivity|].
+  vm_compute. reflexivity.
 Qed.
 
 Lemma der_lows_k1_example :
